@@ -262,6 +262,79 @@ static void ref_fieldline_parse(const ref_u8 *line, size_t len, struct ref_field
 			r->value_bad_octet = 1;
 }
 
+/* ---- header section (RFC 9112 5, 5.2) ---------------------------------------------
+ * Input: the lines of the header section in order (without their CRLF).
+ * Output: the field list a conforming recipient derives, or the verdict that
+ * the section must be rejected, or that more lines are needed.
+ *   - empty line: end of section
+ *   - line starting with SP / HTAB: obs-fold continuation of the previous
+ *     field; "MUST either reject the message ... or replace each received
+ *     obs-fold with one or more SP octets" (5.2) -> value := value SP content.
+ *     Before the first field: "MUST either reject the message as invalid or
+ *     consume each whitespace-preceded line without further processing" (2.2).
+ *   - otherwise a field-line (see ref_fieldline_parse).
+ * must_reject: no colon, empty name, white space before the colon.
+ * strict: every line processed is grammatical (token name, no CR/LF/NUL in value). */
+#define REF_H_DONE   1
+#define REF_H_MORE   2
+#define REF_H_REJECT 3
+#ifndef REF_MAXF
+#define REF_MAXF 4
+#endif
+#ifndef REF_MAXV
+#define REF_MAXV 48
+#endif
+struct ref_hfield { ref_u8 name[REF_MAXV]; size_t name_len; ref_u8 value[REF_MAXV]; size_t value_len; int folded; };
+struct ref_hsection {
+	int status;          /* REF_H_* (REJECT only for must-reject reasons) */
+	int strict;          /* all processed lines strictly grammatical */
+	int leading_fold;    /* a whitespace-preceded line before the first field (reject or skip: both permitted) */
+	size_t nlines_used;  /* lines consumed, including the terminating empty line */
+	size_t nfields;
+	struct ref_hfield f[REF_MAXF];
+};
+static void ref_header_section(const ref_u8 *const *lines, const size_t *lens, size_t nlines, struct ref_hsection *h)
+{
+	size_t li, i;
+	h->status = REF_H_MORE; h->strict = 1; h->leading_fold = 0; h->nlines_used = 0; h->nfields = 0;
+	for (li = 0; li < nlines; li++) {
+		const ref_u8 *l = lines[li];
+		size_t n = lens[li];
+		h->nlines_used = li + 1;
+		if (n == 0) { h->status = REF_H_DONE; return; }
+		if (ref_is_ows(l[0])) {
+			size_t b = 0, e = n;
+			struct ref_hfield *f;
+			if (h->nfields == 0) { h->leading_fold = 1; h->strict = 0; h->status = REF_H_REJECT; return; }
+			f = &h->f[h->nfields - 1];
+			while (b < e && ref_is_ows(l[b])) b++;
+			while (e > b && ref_is_ows(l[e - 1])) e--;
+			if (f->value_len + 1 + (e - b) > REF_MAXV) { h->strict = 0; h->status = REF_H_REJECT; return; }
+			f->value[f->value_len++] = ' ';
+			for (i = b; i < e; i++) {
+				if (l[i] == '\r' || l[i] == '\n' || l[i] == '\0') h->strict = 0;
+				f->value[f->value_len++] = l[i];
+			}
+			f->folded = 1;
+			continue;
+		}
+		{
+			struct ref_fieldline fl;
+			struct ref_hfield *f;
+			ref_fieldline_parse(l, n, &fl);
+			if (!fl.has_colon || fl.n_len == 0 || fl.ws_before_colon) { h->strict = 0; h->status = REF_H_REJECT; return; }
+			if (!fl.name_token || fl.value_bad_octet) h->strict = 0;
+			for (i = 0; i < fl.n_len; i++) if (l[i] == '\0') h->strict = 0;
+			if (h->nfields == REF_MAXF || fl.n_len > REF_MAXV || fl.v_len > REF_MAXV) { h->strict = 0; h->status = REF_H_REJECT; return; }
+			f = &h->f[h->nfields++];
+			f->folded = 0;
+			f->name_len = fl.n_len; f->value_len = fl.v_len;
+			for (i = 0; i < fl.n_len; i++) f->name[i] = l[fl.n_off + i];
+			for (i = 0; i < fl.v_len; i++) f->value[i] = l[fl.v_off + i];
+		}
+	}
+}
+
 /* ---- Content-Length ------------------------------------------------------------
  * Content-Length = 1*DIGIT (RFC 9110 8.6).  RFC 9112 6.3 item 5: a list of
  * identical valid values "N, N" MAY be accepted as N; anything else is invalid
